@@ -369,7 +369,10 @@ class LogicalType(type):  # noqa
                     # like NormalFloat = AllOf(Float, Not(AbnormalFloat))('3.3')
                     value = context.transformer(value, con)
                 except Exception as e:
-                    context.handle_error(e)
+                    # a plain type (int, str, ...) raises its converter's own exception: report it as a ParseError
+                    context.handle_error(
+                        e if isinstance(e, exc.ParseError) else exc.ParseError(value=value, type=con, origin_exc=e)
+                    )
                     break
             # fall through: a collected error must still be raised (collect_errors=True)
 
